@@ -428,9 +428,16 @@ def oracle(ctx):
         if k < 3:
             ctx.sample({"tzstr": s, "vtimezone": text})
         ok = True
+        if mode == 2:
+            years = (2014,) + years          # the DTSTART itself is the first onset of an RDATE-list component
         for y in years:
             grid = [datetime.datetime(y, 1, 20) + datetime.timedelta(days=d, hours=(d * 5) % 24, minutes=30 * (d % 2)) for d in range(0, 330, 23)] if k % 4 == 0 else []
             us = [(tu + datetime.timedelta(seconds=d), True) for tu in transitions_utc(spec, y) for d in DELTAS] + [(g, False) for g in grid]
+            if mode == 2 and y == 2014:
+                # the property speaks "from its first onset on": keep instants from two hours before the earliest
+                # listed onset of either component (before it the first STANDARD component applies — checked below)
+                first = min(transitions_utc(spec, 2014)) - datetime.timedelta(hours=2)   # wall probes reach 2 h back
+                us = [(u, near) for (u, near) in us if u >= first + datetime.timedelta(hours=4)]
             for u, near in us:
                 if not ok:
                     break
